@@ -89,7 +89,8 @@ def ld_callees(ctx, tree, src, incs):
     """unhooked tree only: functions whose prototype returns long double (from the preprocessed source)"""
     r = subprocess.run([tree + "/chibicc", "-I" + tree + "/include"] + ["-I" + i for i in incs] + ["-E", src],
                        capture_output=True, text=True, timeout=60)
-    return set(re.findall(r"long\s+double\s+(\w+)\s*\(", r.stdout))
+    names = ["long\\s+double"] + [re.escape(t) for t in re.findall(r"typedef\s+long\s+double\s+(\w+)\s*;", r.stdout)]
+    return set(re.findall(r"\b(?:%s)\s+(\w+)\s*\(" % "|".join(names), r.stdout))
 
 
 def unit_program(ctx, tree, label, src, incs, hooked_expected=None):
